@@ -39,6 +39,10 @@ RELAY_CLASSES = {
     # text that means something to a templating step (the form is made from a template with named slots)
     "template": ["{action}", "{saml_response_input}", "{relay_state_input}", "{name}", "{val}", "{type}", "{0}", "{}", "{{action}}", "%s", "%(action)s", "${action}",
                  "x{action}y{val}", "\\g<0>"],
+    # text that looks like the namespace declarations a serialiser writes (an envelope assembled by cutting text would cut here too)
+    "xmlns-lookalike": ['x xmlns:ns3="http://example.org/" y', 'xmlns:ns0="http://schemas.xmlsoap.org/soap/envelope/"', 'xmlns:ns2="http://example.org/"',
+                        'a xmlns:ns1="http://example.org/" b', 'xmlns:ns1="http://example.org/"', 'http://example.org/', 'xmlns:ns4="http://example.org/" ',
+                        ' xmlns:ns3="http://example.org/"'],
     "unicode": ["Müller", "日本語テキスト", "😀 emoji", " nbsp", "‮rtl", "ﬁ ligature", "é"],
 }
 
@@ -442,6 +446,21 @@ def _run_case(case, ctx):
             counters["library_decodes"] = 1
             if back != msg_bytes:
                 bad("post-roundtrip-not-byte-identical", "unravel returned %r" % back[:80])
+            # ... and the package's decoder for the receiving end of the form (a WSGI request as the browser submits it)
+            import io
+            from saml2_tophat import httputil
+            body = up.urlencode(got).encode("ascii")
+            environ = {"REQUEST_METHOD": "POST", "CONTENT_TYPE": "application/x-www-form-urlencoded", "CONTENT_LENGTH": str(len(body)), "wsgi.input": io.BytesIO(body)}
+            try:
+                fields, b_ = httputil.unpack_any(environ)
+                counters["receiving_end_decodes"] = 1
+                txt = lambda v: v.decode("utf-8") if isinstance(v, bytes) else v
+                fields = dict((txt(k), txt(v)) for k, v in fields.items())
+                if b_ != BINDING_HTTP_POST or fields.get(typ) != got[0][1] or (fields.get("RelayState") or "") != relay:
+                    bad("post-receiving-decoder-differs", "httputil.unpack_any -> binding %s, %s %r..., RelayState %r" % (
+                        b_.rsplit(":", 1)[-1], typ, (fields.get(typ) or "")[:30], fields.get("RelayState")))
+            except Exception as exc:
+                bad("post-receiving-decoder-raised", "httputil.unpack_any on the submitted form: %r" % (exc,))
     elif binding in ("redirect", "redirect-signed"):
         signed_q = binding == "redirect-signed"
         if signed_q:
